@@ -1,13 +1,13 @@
-(* Deploy/Inductive.v — UNFINISHED groundwork for an inductive invariant over ALL executions (unbounded number
-   of requests, operations, suspensions and scheduling choices) of the deploy-only fragment on one eager,
-   non-wrapper, never-failing deployment.  This file contains: the invariant [INV] (heap facts H1/A2/A3/A4, the
-   admissible stack shapes of a task with the heap facts each transient shape relies on, the log checker
-   [ra_all] with [ra_all_ok : ra_all l = true -> ra_ok reqs l = true]), and the lemmas that are independent of
-   [micro] (tasks that are not running only depend on deployments_map; waking preserves the shapes; replacing
-   the running task in the table).  NOT proved here: preservation of [INV] by each case of [micro], hence no
-   statement about executions follows from this file yet, and nothing in Props/ depends on it.  The plan of
-   the remaining proof (and its extension to undeploy: deployer uniqueness, captured events are stale) is in
-   design/notes/C26.md. *)
+(* Deploy/Inductive.v — an inductive invariant over ALL executions of Deploy/Model.v for the deploy-only
+   fragment on one eager, non-wrapper, never-failing deployment: any number of requests, each any number of
+   deploy(d0) operations, any number of suspensions inside connector.deploy(), every list of scheduling
+   choices.  [deploy_only_all_executions]: return_after and once hold on the log of every execution.
+   Structure: the invariant [INV] is a record of named clauses (heap facts H1/A2/A3/A4, the admissible stack
+   shapes of every task with the heap facts each transient shape relies on, the log clauses); [INV_mk] rebuilds
+   it after a step of the running task; one lemma per non-trivial case of [micro] (case_next, case_claim,
+   case_create, case_deployed), [micro_inv] assembles the 9 stack shapes, then iter/step/run.
+   Restricted program shape: no undeploy, no lazy FutureConnector, no failure, no wraps chain (plan for
+   deploy+undeploy in design/notes/C26.md). *)
 From Coq Require Import List Bool Arith Lia.
 From SF Require Import Deploy.Model Deploy.Proofs.
 Import ListNotations.
@@ -60,9 +60,9 @@ Qed.
 
 Section OneEager.
 Variable d : dcfg.
-Hypothesis Hw : wrapper d = false.
-Hypothesis Hl : lazy d = false.
-Hypothesis Hf : fails d = [].
+Hypothesis Dw : wrapper d = false.
+Hypothesis Dl : lazy d = false.
+Hypothesis Df : fails d = [].
 Let deps := [d].
 
 Definition Eset (s : st) := exists e, alookup 0 (em s) = Some e /\ ev_isset s e = true.
@@ -91,11 +91,13 @@ Definition P_H1 (s : st) := forall c e, alookup 0 (dm s) = Some (Real c) -> aloo
 Definition P_A2 (s : st) := alookup 0 (dm s) <> None -> mem 0 (cm s) = true.
 Definition P_A3 (s : st) := forall x, alookup 0 (dm s) = Some x -> exists c, x = Real c.
 Definition P_A4 (s : st) := forall e, alookup 0 (em s) = Some e -> e < length (evs s).
+Definition P_O (s : st) := alookup 0 (dm s) = None -> conns_of 0 (log s) = [].
 Definition P_T (o : option nat) (s : st) :=
   forall j t, nth_error (tasks s) j = Some t -> (tw t <> WRun \/ o = Some j) -> task_ok s t.
 
 Record INV (o : option nat) (s : st) : Prop := {
-  i_H1 : P_H1 s; i_A2 : P_A2 s; i_A3 : P_A3 s; i_A4 : P_A4 s; i_T : P_T o s; i_L : ra_all (log s) = true
+  i_H1 : P_H1 s; i_A2 : P_A2 s; i_A3 : P_A3 s; i_A4 : P_A4 s; i_T : P_T o s; i_L : ra_all (log s) = true;
+  i_O : P_O s; i_Once : once_ok (log s) = true
 }.
 
 Definition heap (s : st) := (cm s, em s, dm s, evs s).
@@ -137,14 +139,14 @@ Proof. intros e t H. unfold wake. now rewrite H. Qed.
    through [g] (identity or waking) and the heap changed in a way that is harmless for tasks that do not run *)
 Lemma INV_mk : forall s s' tid t1 (g : task -> task),
   INV (Some tid) s ->
-  P_H1 s' -> P_A2 s' -> P_A3 s' -> P_A4 s' -> ra_all (log s') = true ->
+  P_H1 s' -> P_A2 s' -> P_A3 s' -> P_A4 s' -> ra_all (log s') = true -> P_O s' -> once_ok (log s') = true ->
   (forall x, tw x <> WRun -> task_ok s x -> task_ok s' x) ->
   nth_error (tasks s') tid = Some t1 ->
   (forall j, j <> tid -> nth_error (tasks s') j = option_map g (nth_error (tasks s) j)) ->
   (forall x, task_ok s' x -> task_ok s' (g x)) -> (forall x, tw (g x) <> WRun -> tw x <> WRun) ->
   task_ok s' t1 -> INV (Some tid) s'.
 Proof.
-  intros s s' tid t1 g I h1 a2 a3 a4 l Ho Ht Hn Hg Hgw Hok.
+  intros s s' tid t1 g I h1 a2 a3 a4 l po on Ho Ht Hn Hg Hgw Hok.
   constructor; auto. intros j t' Hj Hc.
   destruct (Nat.eq_dec j tid) as [->|Hne].
   - rewrite Ht in Hj. inversion Hj; subst; auto.
@@ -159,9 +161,9 @@ Proof. auto. Qed.
 (* ---------------------------------------------------------------- transfer lemmas *)
 Lemma INV_eq : forall o s s', heap s' = heap s -> tasks s' = tasks s -> log s' = log s -> INV o s -> INV o s'.
 Proof.
-  intros o s s' H Ht Hl I. pose proof H as H0. unfold heap in H. inversion H as [[Hc He Hd Hv]].
-  destruct I as [h1 a2 a3 a4 tt ll].
-  constructor; unfold P_H1, P_A2, P_A3, P_A4, P_T, ev_isset in *; rewrite ?Hc, ?He, ?Hd, ?Hv, ?Hl, ?Ht; auto.
+  intros o s s' H Ht Hlg I. pose proof H as H0. unfold heap in H. inversion H as [[Hc He Hd Hv]].
+  destruct I as [h1 a2 a3 a4 tt ll oo on].
+  constructor; unfold P_H1, P_A2, P_A3, P_A4, P_T, P_O, ev_isset in *; rewrite ?Hc, ?He, ?Hd, ?Hv, ?Hlg, ?Ht; auto.
   intros j t Hj Hcnd. eapply task_ok_heap; eauto.
 Qed.
 
@@ -169,17 +171,20 @@ Definition ev_fine (x : ev) (older : list ev) : bool :=
   match x with
   | Ret _ _ None (IReal c) => has (is_DE c true) older
   | Ret _ _ None _ => false
+  | DS _ _ => false
   | _ => true
   end.
 Lemma INV_log : forall o s s' x, heap s' = heap s -> tasks s' = tasks s -> log s' = x :: log s ->
   ev_fine x (log s) = true -> INV o s -> INV o s'.
 Proof.
-  intros o s s' x H Ht Hl Hx I. pose proof H as H0. unfold heap in H. inversion H as [[Hc He Hd Hv]].
-  destruct I as [h1 a2 a3 a4 tt ll].
-  constructor; unfold P_H1, P_A2, P_A3, P_A4, P_T, ev_isset in *; rewrite ?Hc, ?He, ?Hd, ?Hv, ?Hl, ?Ht; auto.
+  intros o s s' x H Ht Hlg Hx I. pose proof H as H0. unfold heap in H. inversion H as [[Hc He Hd Hv]].
+  destruct I as [h1 a2 a3 a4 tt ll oo on].
+  constructor; unfold P_H1, P_A2, P_A3, P_A4, P_T, P_O, ev_isset in *; rewrite ?Hc, ?He, ?Hd, ?Hv, ?Hlg, ?Ht; auto.
   - intros c e A B C. right. eapply h1; eauto.
   - intros j t Hj Hcnd. eapply task_ok_heap; eauto.
-  - simpl. unfold ev_fine in Hx. rewrite ll, andb_true_r. exact Hx.
+  - simpl. unfold ev_fine in Hx. rewrite ll, andb_true_r. destruct x; auto; discriminate.
+  - intros Hn. destruct x; simpl; auto; discriminate.
+  - destruct x; simpl; auto; discriminate.
 Qed.
 
 Lemma opt_id : forall A (x : option A), option_map (fun y => y) x = x.
@@ -197,6 +202,8 @@ Proof.
   - exact (i_A3 _ _ I).
   - exact (i_A4 _ _ I).
   - exact (i_L _ _ I).
+  - exact (i_O _ _ I).
+  - exact (i_Once _ _ I).
   - intros x _ Hx. eapply task_ok_heap; eauto.
   - simpl. rewrite nth_error_nth_upd, Nat.eqb_refl, Ht. reflexivity.
   - intros j Hne. simpl. rewrite nth_error_nth_upd. destruct (tid =? j) eqn:E.
@@ -227,10 +234,309 @@ Lemma INV_raise : forall s tid t e,
   INV (Some tid) s -> nth_error (tasks s) tid = Some t -> task_ok s t -> INV (Some tid) (raise s tid e).
 Proof.
   intros s tid t e I Ht Hok. unfold raise. rewrite Ht. destruct (cur t) as [o|].
-  - eapply INV_finish with (t := t); eauto.
-    + eapply INV_log with (s := s); eauto; reflexivity.
-    + eapply task_ok_heap; eauto. reflexivity.
+  - eapply INV_finish with (t := t).
+    + apply INV_log with (s := s) (x := Ret tid (opi t) (Some e) (info_of s t o));
+        [reflexivity|reflexivity|reflexivity|reflexivity|exact I].
+    + exact Ht.
+    + eapply task_ok_heap; [|exact Hok]. reflexivity.
   - eapply INV_finish; eauto.
+Qed.
+
+(* ---------------------------------------------------------------- the cases of [micro] *)
+Ltac tab_tid Ht := simpl; rewrite ?nth_error_nth_upd, ?Nat.eqb_refl, ?Ht; reflexivity.
+Ltac tab_other := intros j Hne; simpl; rewrite ?nth_error_nth_upd;
+  destruct (_ =? j) eqn:E; [apply Nat.eqb_eq in E; congruence | now rewrite ?opt_id].
+
+Lemma running_tw : forall s tid t, running s tid = true -> nth_error (tasks s) tid = Some t -> tw t = WRun.
+Proof. unfold running. intros s tid t H Ht. rewrite Ht in H. destruct (tw t); congruence. Qed.
+
+Lemma cfg0 : cfg deps 0 = d. Proof. reflexivity. Qed.
+
+(* stack [] : an operation finished (or the first one starts) *)
+Lemma case_next : forall s tid t,
+  INV (Some tid) s -> nth_error (tasks s) tid = Some t -> tw t = WRun -> stack t = [] ->
+  INV (Some tid) (next_op s tid t).
+Proof.
+  intros s tid t I Ht Hw Hs. pose proof (i_T _ _ I tid t Ht (or_intror eq_refl)) as [A [B C]].
+  unfold next_op.
+  (* the state after logging the completion *)
+  set (s1 := match cur t with
+             | Some o => add_log s (Ret tid (opi t) None (info_of s t o)) | None => s end).
+  assert (I1 : INV (Some tid) s1 /\ heap s1 = heap s /\ tasks s1 = tasks s).
+  { subst s1. destruct C as [Hst Hc|Hst Hc Hr Hg|Hst|Hst|Hst|Hst|Hst|c k Hst|Hst]; try congruence.
+    - rewrite Hc. auto.
+    - unfold isD in Hc. rewrite Hc. split; [|split; reflexivity].
+      destruct Hg as [[c Hd] [e [He Hse]]].
+      apply INV_log with (s := s) (x := Ret tid (opi t) None (info_of s t (ODeploy 0)));
+        [reflexivity|reflexivity|reflexivity| |exact I].
+      simpl. unfold info. rewrite Hd. simpl. apply has_DE_In. eapply (i_H1 _ _ I); eauto. }
+  destruct I1 as [I1 [Hh Htk]].
+  assert (Ht1 : nth_error (tasks s1) tid = Some t) by (rewrite Htk; exact Ht).
+  destruct (todo t) as [|o rest] eqn:Et.
+  - eapply INV_finish; eauto. eapply task_ok_heap; eauto. split; [|split]; auto. rewrite Et; auto.
+  - eapply INV_upd; eauto. inversion A; subst. split; [|split]; simpl; auto.
+    apply Sh_FD; simpl; reflexivity.
+Qed.
+
+(* the deployer claims the name: config_map, a fresh event, a fresh dependency set *)
+Lemma case_claim : forall s tid t,
+  INV (Some tid) s -> nth_error (tasks s) tid = Some t -> tw t = WRun ->
+  stack t = [FD 0; FDeployTop 0] -> mem 0 (cm s) = false ->
+  let e := length (evs s) in
+  let sid := length (sets s) in
+  let s1 := set_cm s (cm s ++ [0]) in
+  let s2 := set_em (set_evs s1 (evs s1 ++ [false])) (aset 0 e (em s1)) in
+  let s3 := set_dg (set_sets s2 (sets s2 ++ [[]])) (aset 0 sid (dg s2)) in
+  INV (Some tid) (push (top_set s3 tid (FDAfterInner 0)) tid (FI 0 false)).
+Proof.
+  intros s tid t I Ht Hw Hs Hm. cbv zeta.
+  pose proof (i_T _ _ I tid t Ht (or_intror eq_refl)) as [A [B C]].
+  assert (Hcur : isD (cur t)).
+  { destruct C as [Hst|Hst|Hst Hc|Hst|Hst|Hst|Hst|c k Hst|Hst]; try congruence. }
+  assert (Hdm : alookup 0 (dm s) = None).
+  { destruct (alookup 0 (dm s)) eqn:E; auto. rewrite (i_A2 _ _ I) in Hm; congruence. }
+  eapply INV_mk with (s := s) (g := fun y => y)
+    (t1 := set_stack (set_stack t (FDAfterInner 0 :: tl (stack t)))
+                     (FI 0 false :: stack (set_stack t (FDAfterInner 0 :: tl (stack t))))).
+  - exact I.
+  - unfold P_H1, ev_isset. simpl. intros c e0 Hd He Hi. rewrite alookup_aset_same in He. inversion He; subst.
+    rewrite nth_app_end in Hi. discriminate.
+  - unfold P_A2. simpl. intros _. apply mem_app_self.
+  - exact (i_A3 _ _ I).
+  - unfold P_A4. simpl. intros e0 He. rewrite alookup_aset_same in He. inversion He; subst.
+    rewrite app_length. simpl. lia.
+  - exact (i_L _ _ I).
+  - exact (i_O _ _ I).
+  - exact (i_Once _ _ I).
+  - intros x Hx Hok. apply (other_ok s _ x Hx); [reflexivity | exact Hok].
+  - tab_tid Ht.
+  - tab_other.
+  - auto.
+  - auto.
+  - split; [|split]; simpl; auto. rewrite Hs. simpl. apply Sh_FI; simpl; auto.
+    unfold Fresh, Eunset, ev_isset. simpl. split; [exact Hdm|split; [apply mem_app_self|]].
+    exists (length (evs s)). rewrite alookup_aset_same. split; auto. apply nth_app_end.
+Qed.
+
+(* the connector is created and registered, deploy() is entered *)
+Lemma case_create : forall s tid t,
+  INV (Some tid) s -> nth_error (tasks s) tid = Some t -> tw t = WRun ->
+  stack t = [FDAfterInner 0; FDeployTop 0] ->
+  let c := nreal s in
+  let s1 := set_dm (set_nreal s (S c)) (aset 0 (Real c) (dm s)) in
+  INV (Some tid) (top_set (add_log s1 (DS 0 c)) tid (FDDeploying 0 c (dy d) false)).
+Proof.
+  intros s tid t I Ht Hw Hs. cbv zeta.
+  pose proof (i_T _ _ I tid t Ht (or_intror eq_refl)) as [A [B C]].
+  assert (Hcur : isD (cur t) /\ Fresh s).
+  { destruct C as [Hst|Hst|Hst|Hst|Hst|Hst|Hst Hc _ Hf'|c' k Hst|Hst]; try congruence. auto. }
+  destruct Hcur as [Hcur [Hdm [Hcm [e [He Hse]]]]].
+  eapply INV_mk with (s := s) (g := fun y => y)
+    (t1 := set_stack t (FDDeploying 0 (nreal s) (dy d) false :: tl (stack t))).
+  - exact I.
+  - unfold P_H1, ev_isset. simpl. intros c0 e0 Hd He0 Hi. unfold ev_isset in Hse. congruence.
+  - unfold P_A2. simpl. auto.
+  - unfold P_A3. simpl. intros x Hx. rewrite alookup_aset_same in Hx. inversion Hx. eauto.
+  - exact (i_A4 _ _ I).
+  - simpl. exact (i_L _ _ I).
+  - unfold P_O. simpl. intros Hn. rewrite alookup_aset_same in Hn. discriminate.
+  - simpl. rewrite (i_O _ _ I Hdm). simpl. exact (i_Once _ _ I).
+  - intros x Hx Hok. apply (other_ok_create s _ x Hx Hdm Hok).
+  - tab_tid Ht.
+  - tab_other.
+  - auto.
+  - auto.
+  - split; [|split]; simpl; auto. rewrite Hs. simpl. eapply Sh_Dep; simpl; eauto. apply alookup_aset_same.
+Qed.
+
+(* deploy() returned: the event is set, every waiter becomes ready *)
+Lemma case_deployed : forall s tid t c e,
+  INV (Some tid) s -> nth_error (tasks s) tid = Some t -> tw t = WRun ->
+  stack t = [FDDeploying 0 c 0 false; FDeployTop 0] ->
+  alookup 0 (em s) = Some e ->
+  INV (Some tid) (pop (ev_set (add_log s (DE c true)) e) tid).
+Proof.
+  intros s tid t c e I Ht Hw Hs He.
+  pose proof (i_T _ _ I tid t Ht (or_intror eq_refl)) as [A [B C]].
+  assert (Hcur : isD (cur t) /\ alookup 0 (dm s) = Some (Real c)).
+  { destruct C as [Hst|Hst|Hst|Hst|Hst|Hst|Hst|c' k Hst Hc Hd|Hst]; try congruence.
+    rewrite Hs in Hst. inversion Hst; subst. auto. }
+  destruct Hcur as [Hcur Hd].
+  pose proof (i_A4 _ _ I e He) as Hlt.
+  set (s1 := add_log s (DE c true)).
+  assert (Hset : ev_isset (ev_set s1 e) e = true).
+  { unfold ev_set. destruct (ev_isset s1 e) eqn:E; auto. unfold ev_isset. simpl. apply nth_nth_upd_same. exact Hlt. }
+  assert (Hdm' : dm (ev_set s1 e) = dm s) by (unfold ev_set; destruct (ev_isset s1 e); reflexivity).
+  assert (Hem' : em (ev_set s1 e) = em s) by (unfold ev_set; destruct (ev_isset s1 e); reflexivity).
+  assert (Hcm' : cm (ev_set s1 e) = cm s) by (unfold ev_set; destruct (ev_isset s1 e); reflexivity).
+  assert (Hlg' : log (ev_set s1 e) = DE c true :: log s) by (unfold ev_set; destruct (ev_isset s1 e); reflexivity).
+  assert (Hlen : length (evs (ev_set s1 e)) = length (evs s)).
+  { unfold ev_set. destruct (ev_isset s1 e); simpl; auto. apply nth_upd_length. }
+  assert (HG : G (pop (ev_set s1 e) tid)).
+  { unfold G, Eset. simpl. rewrite Hdm', Hem'. split; eauto. }
+  assert (Htab : nth_error (tasks (pop (ev_set s1 e) tid)) tid = Some (set_stack t (tl (stack t))) /\
+                 forall j, j <> tid -> nth_error (tasks (pop (ev_set s1 e) tid)) j =
+                                         option_map (wake e) (nth_error (tasks s) j) \/
+                                       nth_error (tasks (pop (ev_set s1 e) tid)) j =
+                                         option_map (fun y => y) (nth_error (tasks s) j)).
+  { unfold ev_set. destruct (ev_isset s1 e); simpl.
+    - split. rewrite nth_error_nth_upd, Nat.eqb_refl, Ht. reflexivity.
+      intros j Hne. right. rewrite nth_error_nth_upd. destruct (tid =? j) eqn:E'.
+      apply Nat.eqb_eq in E'; congruence. now rewrite opt_id.
+    - split. rewrite nth_error_nth_upd, Nat.eqb_refl, nth_error_map, Ht. simpl. now rewrite (wake_run e t Hw).
+      intros j Hne. left. rewrite nth_error_nth_upd. destruct (tid =? j) eqn:E'.
+      apply Nat.eqb_eq in E'; congruence. apply nth_error_map. }
+  destruct Htab as [Htid Hoth].
+  constructor.
+  - unfold P_H1. simpl. rewrite Hdm', Hlg'. intros c0 e0 Hd0 _ _. left. congruence.
+  - unfold P_A2. simpl. rewrite Hdm', Hcm'. exact (i_A2 _ _ I).
+  - unfold P_A3. simpl. rewrite Hdm'. exact (i_A3 _ _ I).
+  - unfold P_A4. simpl. rewrite Hem', Hlen. exact (i_A4 _ _ I).
+  - intros j t' Hj Hc. destruct (Nat.eq_dec j tid) as [->|Hne].
+    + rewrite Htid in Hj. inversion Hj; subst. split; [|split]; simpl; auto.
+      rewrite Hs. simpl. apply Sh_Top; simpl; auto.
+    + destruct Hc as [Hc|Hc]; [|inversion Hc; congruence].
+      destruct (nth_error (tasks s) j) as [x|] eqn:Ex.
+      * assert (Hx : tw x <> WRun -> task_ok (pop (ev_set s1 e) tid) x).
+        { intro Hn. apply (other_ok s _ x Hn); [simpl; now rewrite Hdm' | eapply (i_T _ _ I j x Ex); auto]. }
+        destruct (Hoth j Hne) as [Hj'|Hj']; rewrite Hj', Ex in Hj; simpl in Hj; inversion Hj; subst.
+        -- apply wake_ok. apply Hx. eapply wake_tw; eauto.
+        -- apply Hx. exact Hc.
+      * destruct (Hoth j Hne) as [Hj'|Hj']; rewrite Hj', Ex in Hj; simpl in Hj; discriminate.
+  - simpl. rewrite Hlg'. simpl. exact (i_L _ _ I).
+  - unfold P_O. simpl. rewrite Hdm', Hlg'. simpl. exact (i_O _ _ I).
+  - simpl. rewrite Hlg'. simpl. exact (i_Once _ _ I).
+Qed.
+
+Lemma nth_nil_false : forall n, nth n (@nil bool) false = false.
+Proof. destruct n; reflexivity. Qed.
+
+Lemma micro_inv : forall s tid,
+  INV (Some tid) s -> running s tid = true -> INV (Some tid) (micro false deps tid s).
+Proof.
+  intros s tid I Hr. unfold running in Hr.
+  destruct (nth_error (tasks s) tid) as [t|] eqn:Ht; [|discriminate].
+  assert (Hw : tw t = WRun) by (destruct (tw t); congruence).
+  pose proof (i_T _ _ I tid t Ht (or_intror eq_refl)) as Hok. pose proof Hok as [A [B C]].
+  unfold micro. rewrite Ht.
+  destruct C as [Hst Hc|Hst Hc _ Hg|Hst Hc|Hst Hc|Hst Hc _ He|Hst Hc _ Hfr|Hst Hc _ Hfr|c k Hst Hc Hd|Hst Hc _ Hg];
+    rewrite Hst; cbv beta iota.
+  - apply case_next; auto.
+  - apply case_next; auto.
+  - (* FD *)
+    destruct (mem 0 (cm s)) eqn:Em.
+    + unfold top_set. eapply INV_upd with (t := t); [exact I|exact Ht|]. split; [|split]; simpl; auto. rewrite Hst. simpl.
+      apply Sh_Else; simpl; auto.
+    + rewrite cfg0, Dw. apply (case_claim s tid t); auto.
+  - (* FDElse *)
+    destruct (alookup 0 (em s)) as [e|] eqn:Ee.
+    + destruct (ev_isset s e) eqn:Es.
+      * unfold top_set. eapply INV_upd with (t := t); [exact I|exact Ht|]. split; [|split]; simpl; auto. rewrite Hst. simpl.
+        apply Sh_Wait; simpl; auto. exists e. split; auto.
+      * unfold suspend. eapply INV_upd with (t := t); [exact I|exact Ht|]. split; [|split]; simpl; auto.
+        apply Sh_Else; simpl; auto.
+    + eapply INV_raise with (t := t); eauto.
+  - (* FDWait *)
+    destruct (alookup 0 (dm s)) as [x|] eqn:Ed.
+    + destruct (mem 0 (cm s)) eqn:Em.
+      * unfold pop. eapply INV_upd with (t := t); [exact I|exact Ht|]. split; [|split]; simpl; auto. rewrite Hst. simpl.
+        apply Sh_Top; simpl; auto. split; auto. destruct (i_A3 _ _ I x Ed) as [c ->]. eauto.
+      * unfold top_set. eapply INV_upd with (t := t); [exact I|exact Ht|]. split; [|split]; simpl; auto. rewrite Hst. simpl.
+        apply Sh_FD; simpl; auto.
+    + eapply INV_raise with (t := t); eauto.
+  - (* FI 0 false *)
+    unfold pop. eapply INV_upd with (t := t); [exact I|exact Ht|]. split; [|split]; simpl; auto. rewrite Hst. simpl.
+    apply Sh_After; simpl; auto.
+  - (* FDAfterInner *)
+    rewrite cfg0, Dl. cbv beta iota zeta. unfold will_fail. rewrite cfg0, Df, nth_nil_false.
+    apply (case_create s tid t); auto.
+  - (* FDDeploying *)
+    destruct k as [|k'].
+    + cbv beta iota zeta.
+      change (alookup 0 (em (add_log s (DE c true)))) with (alookup 0 (em s)).
+      destruct (alookup 0 (em s)) as [e|] eqn:Ee.
+      * apply (case_deployed s tid t c e); auto.
+      * eapply INV_raise with (t := t).
+        -- apply INV_log with (s := s) (x := DE c true); [reflexivity|reflexivity|reflexivity|reflexivity|exact I].
+        -- exact Ht.
+        -- eapply task_ok_heap; [|exact Hok]. reflexivity.
+    + unfold suspend, top_set.
+      eapply INV_upd with (t := set_stack t (FDDeploying 0 c k' false :: tl (stack t))).
+      * eapply INV_upd with (t := t); [exact I|exact Ht|]. split; [|split]; simpl; auto. rewrite Hst. simpl.
+        eapply Sh_Dep; simpl; eauto.
+      * exact (tid_upd s tid t (fun t0 => set_stack t0 (FDDeploying 0 c k' false :: tl (stack t0))) Ht).
+      * split; [|split]; simpl; auto. rewrite Hst. simpl. eapply Sh_Dep; simpl; eauto.
+  - (* FDeployTop *)
+    destruct (alookup 0 (dg s)) as [sid|] eqn:Eg.
+    + unfold pop.
+      assert (I' : INV (Some tid) (set_add s sid 0)) by (eapply INV_eq; [| | |exact I]; reflexivity).
+      eapply INV_upd with (t := t); [exact I'|exact Ht|]. split; [|split]; simpl; auto. rewrite Hst. simpl.
+      apply Sh_ret; simpl; auto.
+    + eapply INV_raise with (t := t); eauto.
+Qed.
+
+(* ---------------------------------------------------------------- executions *)
+Lemma iter_inv : forall fuel s tid, INV (Some tid) s -> INV (Some tid) (iter false deps fuel tid s).
+Proof.
+  induction fuel as [|f IH]; intros s tid I; simpl.
+  - eapply INV_eq; [| | |exact I]; reflexivity.
+  - destruct (running s tid) eqn:R; auto. apply IH. apply micro_inv; auto.
+Qed.
+
+Lemma INV_focus : forall s tid t, INV None s -> nth_error (tasks s) tid = Some t -> tw t <> WRun -> INV (Some tid) s.
+Proof.
+  intros s tid t I Ht Hn. destruct I as [h1 a2 a3 a4 tt ll oo on]. constructor; auto.
+  intros j t' Hj Hc. destruct Hc as [Hc|Hc]; [apply (tt j t' Hj); auto|].
+  inversion Hc; subst. rewrite Ht in Hj. inversion Hj; subst. apply (tt j t' Ht). auto.
+Qed.
+Lemma INV_unfocus : forall s tid, INV (Some tid) s -> INV None s.
+Proof.
+  intros s tid I. destruct I as [h1 a2 a3 a4 tt ll oo on]. constructor; auto.
+  intros j t' Hj Hc. destruct Hc as [Hc|Hc]; [|discriminate]. apply (tt j t' Hj); auto.
+Qed.
+
+Lemma step_inv : forall s tid, INV None s -> INV None (step false deps s tid).
+Proof.
+  intros s tid I. unfold step.
+  assert (Hbad : INV None (set_bad s)) by (eapply INV_eq; [| | |exact I]; reflexivity).
+  destruct (nth_error (tasks s) tid) as [t|] eqn:Ht; auto.
+  destruct (tw t) eqn:Etw; auto.
+  apply INV_unfocus with (tid := tid). apply iter_inv. unfold suspend.
+  assert (Hn : tw t <> WRun) by congruence.
+  pose proof (INV_focus s tid t I Ht Hn) as I1.
+  eapply INV_upd with (t := t); [exact I1|exact Ht|].
+  destruct (i_T _ _ I1 tid t Ht (or_introl Hn)) as [A [B C]]. split; [|split]; simpl; auto.
+  destruct C as [Hst Hc|Hst Hc Hr|Hst Hc|Hst Hc|Hst Hc Hr|Hst Hc Hr|Hst Hc Hr|c k Hst Hc Hd|Hst Hc Hr];
+    try congruence;
+    [ apply Sh_idle | apply Sh_FD | apply Sh_Else | eapply Sh_Dep ]; simpl; eauto.
+Qed.
+
+Lemma run_inv : forall sched s, INV None s -> INV None (run false deps s sched).
+Proof.
+  induction sched as [|t r IH]; intros s I; simpl; auto. apply IH. apply step_inv. exact I.
+Qed.
+
+Definition deploy_only (reqs : list (list op)) := Forall (Forall (fun o => o = ODeploy 0)) reqs.
+
+Lemma init_inv : forall reqs, deploy_only reqs -> INV None (init reqs).
+Proof.
+  intros reqs H. constructor; unfold P_H1, P_A2, P_A3, P_A4, P_O; simpl; try discriminate; try congruence; auto.
+  intros j t Hj _. unfold init in Hj. simpl in Hj. rewrite nth_error_map in Hj.
+  destruct (nth_error reqs j) as [ops|] eqn:E; [|discriminate]. simpl in Hj. inversion Hj; subst.
+  split; [|split]; simpl; auto.
+  - unfold deploy_only in H. rewrite Forall_forall in H. apply H. eapply nth_error_In; eauto.
+  - apply Sh_idle; reflexivity.
+Qed.
+
+(* every interleaving (every list of scheduling choices, ready or not) of any number of requests, each any
+   number of deploy(d0) operations, with any number of suspensions inside connector.deploy *)
+Theorem deploy_only_all_executions : forall reqs sched,
+  deploy_only reqs ->
+  ra_ok reqs (log (run false deps (init reqs) sched)) = true /\
+  once_ok (log (run false deps (init reqs) sched)) = true.
+Proof.
+  intros reqs sched H. pose proof (run_inv sched (init reqs) (init_inv reqs H)) as I.
+  split. apply ra_all_ok. exact (i_L _ _ I). exact (i_Once _ _ I).
 Qed.
 
 End OneEager.
